@@ -510,13 +510,56 @@ def cases(tier, seed):
         out.append(("seqs", [list(s) for s in seqs[a : a + 20]]))
     for name in public_helpers():
         out.append(("helper", name))
+    out.append(("rshift-callables",))
     return out
+
+
+class Acc:
+    """a callable object with state: counts its own applications"""
+
+    def __init__(self):
+        self.seen = []
+
+    def __call__(self, x):
+        self.seen.append(x)
+        return ("acc", len(self.seen), x)
+
+
+def check_rshift_callables(res):
+    """e >> p against p.transform(e(o), o), literally, for right-hand sides that are not pipelines: a plain
+    function, a stateful callable object, a partial application, a decorated step - each on ONE long-lived
+    object pair, evaluated alternately several times."""
+    import labrea.functions as F
+    from labrea import Option
+    from labrea.pipeline import Pipeline
+
+    atoms = make_atoms()
+    fails = []
+    rhs_atoms = {"function": atoms["F"], "stateful-callable": Acc(), "partial-application": atoms["H"], "step": atoms["S"],
+                 "bound-list-partial": functools.partial(lambda acc, x: (acc.append(x), ("seen", len(acc), x))[1], [])}
+    for name, p in rhs_atoms.items():
+        e = Option("IN", 1)
+        lhs_expr = e >> p
+        pipe = Pipeline() + p
+        for rnd in range(3):
+            for o in ({}, {"P": 5, "Q": 6}, {"IN": "v"}):
+                res["evaluations"] += 1
+                lhs = observe(None, lambda: lhs_expr.evaluate(copy.deepcopy(o)))
+                rhs = observe(None, lambda: pipe.transform(e.evaluate(copy.deepcopy(o)), copy.deepcopy(o)))
+                if lhs.ok != rhs.ok or (lhs.ok and freeze(lhs.value) != freeze(rhs.value)):
+                    if not any(f["sig"].startswith(f"C13|rshift|{name}") for f in fails):
+                        fails.append({"sig": f"C13|rshift|{name}|round {rnd}|{o!r}", "what": f"e >> p differs from p.transform(e(o), o) for p = {name} (round {rnd} on the same objects) under {o!r}",
+                                      "detail": f"e >> p: {lhs!r}; p.transform(e(o), o): {rhs!r}", "case": ("rshift-callables",)})
+    return fails
 
 
 def run_case(case):
     res = {"failures": [], "evaluations": 0, "nontrivial": 0, "samples": [], "uncovered": []}
     if case[0] == "seq":
         res["failures"] = check_sequence(tuple(case[1]), res)
+        return res
+    if case[0] == "rshift-callables":
+        res["failures"] = check_rshift_callables(res)
         return res
     if case[0] == "seqs":
         for s in case[1]:
